@@ -1,7 +1,7 @@
 (* C05 -- property theorems only.  Proofs live in C05/Proofs*.v. *)
 From Coq Require Import NArith List Bool Permutation.
 From DV Require Import Base.Outcome Base.Bytes Base.Names Base.PName
-  C05.Schema C05.Gen C05.Model C05.OptModel C05.SvcModel C05.SvcBuf C05.TxtModel C05.ProofsA C05.ProofsB C05.ProofsC C05.ProofsD C05.ProofsE C05.ProofsF C05.ProofsG C05.ProofsH C05.Proofs C05.ProofsI C05.ProofsJ C05.ProofsK C05.ProofsL C05.ProofsM C05.ProofsN C05.ProofsO.
+  C05.Schema C05.Gen C05.Model C05.OptModel C05.SvcModel C05.SvcBuf C05.TxtModel C05.ProofsA C05.ProofsB C05.ProofsC C05.ProofsD C05.ProofsE C05.ProofsF C05.ProofsG C05.ProofsH C05.Proofs C05.ProofsI C05.ProofsJ C05.ProofsK C05.ProofsL C05.ProofsM C05.ProofsN C05.ProofsO C05.ProofsP.
 Import ListNotations.
 Local Open Scope N_scope.
 
@@ -348,19 +348,6 @@ Theorem C05_ipseckey_ctor_sound : forall g v pre post,
 Proof. exact ipseckey_ctor_sound. Qed.
 Print Assumptions C05_ipseckey_ctor_sound.
 
-(* PARTIAL: the in-buffer representation of SvcParamsBuilder (physical order,
-   predecessor/successor scan, slot fix-up, freeze along the chain) gives what
-   the sorted association list gives -- for every push sequence of length <= 5
-   over 5 keys, duplicates included (complete enumeration); not yet by
-   induction for every push order *)
-Theorem C05_inbuf_refines_list_bounded : forall s,
-  In s (seqs 5 [0; 1; 2; 3; 4]) ->
-  match svc_build (map opt_of_key s) with
-  | Some b => inbuf_build (map opt_of_key s) = Some (Ok b)
-  | None => inbuf_build (map opt_of_key s) = None
-  end.
-Proof. exact inbuf_refines_list_bounded. Qed.
-Print Assumptions C05_inbuf_refines_list_bounded.
 
 (* TxtBuilder, the alternative constructor of TXT data: whatever is appended (slices,
    single octets, whole character strings), in whatever pieces, no character string
@@ -412,3 +399,18 @@ Theorem C05_follow_chain : forall cells, NoDup (map c_start cells) ->
   (length l < fuel)%nat -> follow fuel cells q = Ok (map kd l).
 Proof. exact follow_chain. Qed.
 Print Assumptions C05_follow_chain.
+
+(* The in-buffer representation of SvcParamsBuilder (values in physical push
+   order, predecessor / successor scan over all of them, slot fix-up, freeze
+   along the chain) refines the sorted association list: for EVERY push
+   sequence whose buffer offsets fit a u32, freezing yields exactly the octets
+   of the list model, and a duplicate key is refused by both.  (The bounded
+   enumeration inbuf_refines_list_bounded in ProofsM.v remains as a check.) *)
+Theorem C05_inbuf_refines_list : forall pushes,
+  psize pushes < PMAX ->
+  match svc_build pushes with
+  | Some b => inbuf_build pushes = Some (Ok b)
+  | None => inbuf_build pushes = None
+  end.
+Proof. exact inbuf_refines_list. Qed.
+Print Assumptions C05_inbuf_refines_list.
